@@ -399,9 +399,9 @@ func cmdCheck(args []string) {
 	enumN := queryEnum(bi.Bin, prop, tier)
 
 	type job struct {
-		seed                 int64
-		from, count          int
-		enumFrom, enumCount  int
+		seed                int64
+		from, count         int
+		enumFrom, enumCount int
 	}
 	var jobs []job
 	for e := 0; e < enumN; e += spec.Batch {
@@ -474,7 +474,7 @@ func cmdCheck(args []string) {
 					fmt.Sprintf("VERIF_ENUM_FROM=%d", j.enumFrom), fmt.Sprintf("VERIF_ENUM_COUNT=%d", j.enumCount),
 					"VERIF_OUT="+outPath, "VERIF_KNOWN="+filepath.Join(verifDir, "known_findings.jsonl"),
 					"VERIF_REPLAY_DIR="+filepath.Join(verifDir, "replays"),
-					"GORACE=halt_on_error=0 log_path="+filepath.Join(tmp, fmt.Sprintf("race-%d", wkr)),
+					"GORACE=halt_on_error=0 exitcode=0 log_path="+filepath.Join(tmp, fmt.Sprintf("race-%d", wkr)),
 				)
 				b, err := cmd.CombinedOutput()
 				mu.Lock()
@@ -583,7 +583,9 @@ func queryEnum(bin, prop, tier string) int {
 func replayFile(bin, path string) (bool, string) {
 	cmd := exec.Command(bin, "-test.run", "^TestWorker$")
 	cmd.Dir = verifDir
-	cmd.Env = append(os.Environ(), "VERIF_MODE=replay", "VERIF_REPLAY="+path, "GORACE=halt_on_error=0")
+	rl, _ := os.MkdirTemp("", "verif-replay-")
+	defer os.RemoveAll(rl)
+	cmd.Env = append(os.Environ(), "VERIF_MODE=replay", "VERIF_REPLAY="+path, "GORACE=halt_on_error=0 exitcode=0 log_path="+filepath.Join(rl, "race"))
 	b, _ := cmd.CombinedOutput()
 	return strings.Contains(string(b), "REPRODUCED property=") && !strings.Contains(string(b), "NOT-REPRODUCED"), string(b)
 }
@@ -712,20 +714,20 @@ func writeEvidence(prop, tier, level string, seed int64, a *aggT, wall, buildS f
 	}
 	distinct := len(a.ints)
 	cov := map[string]any{
-		"evaluations":         a.Runs,
-		"distinct_nontrivial": distinct,
-		"rule":                ruleText[prop],
-		"samples":             samples,
-		"enumerated_runs":     a.Enumerated,
-		"scheduler_steps":     a.Steps,
-		"simulated_seconds":   float64(a.SimNs) / 1e9,
-		"runs_per_hour":       float64(a.Runs) / runWall * 3600,
-		"seeds_per_hour":      float64(a.Runs) / runWall * 3600,
-		"distinct_schedules":  len(a.sched),
-		"distinct_plans":      len(a.plans),
-		"fault_fires":         a.Faults,
-		"rare_condition_hits": a.Rare,
-		"strategies":          a.Strategies,
+		"evaluations":                   a.Runs,
+		"distinct_nontrivial":           distinct,
+		"rule":                          ruleText[prop],
+		"samples":                       samples,
+		"enumerated_runs":               a.Enumerated,
+		"scheduler_steps":               a.Steps,
+		"simulated_seconds":             float64(a.SimNs) / 1e9,
+		"runs_per_hour":                 float64(a.Runs) / runWall * 3600,
+		"seeds_per_hour":                float64(a.Runs) / runWall * 3600,
+		"distinct_schedules":            len(a.sched),
+		"distinct_plans":                len(a.plans),
+		"fault_fires":                   a.Faults,
+		"rare_condition_hits":           a.Rare,
+		"strategies":                    a.Strategies,
 		"foreign_events_truncated_runs": a.Foreign,
 		"inconclusive_step_cap":         a.StepCap,
 		"known_findings_observed":       a.Known,
